@@ -58,8 +58,9 @@ type knownEntry struct {
 }
 
 // readKnown parses KNOWN_FINDINGS.txt: lines
-//   known: property=<ID> case=<sha256> <what fails>
-//   fixed: property=<ID> <commit> <what failed>      (suppresses nothing)
+//
+//	known: property=<ID> case=<sha256> <what fails>
+//	fixed: property=<ID> <commit> <what failed>      (suppresses nothing)
 func readKnown(prop string) []knownEntry {
 	f, err := os.Open(filepath.Join(VerifDir, "KNOWN_FINDINGS.txt"))
 	if err != nil {
@@ -563,8 +564,12 @@ func DriverMain(propID, tier string, seed uint64, replayPath string) int {
 		"violations":  len(newViol),
 	}
 	eb, _ := json.MarshalIndent(ev, "", " ")
-	os.MkdirAll(filepath.Join(VerifDir, "evidence"), 0o755)
-	os.WriteFile(filepath.Join(VerifDir, "evidence", propID+".json"), append(eb, '\n'), 0o644)
+	evDir := filepath.Join(VerifDir, "evidence")
+	if alt := os.Getenv("VERIF_EVIDENCE_DIR"); alt != "" {
+		evDir = alt // development aid, see ./check
+	}
+	os.MkdirAll(evDir, 0o755)
+	os.WriteFile(filepath.Join(evDir, propID+".json"), append(eb, '\n'), 0o644)
 
 	if len(newViol) > 0 {
 		for i, pth := range newViol {
